@@ -53,7 +53,7 @@ func main() {
 	}
 	if *list {
 		for _, f := range w.Funcs {
-			fmt.Println(w.name(f))
+			fmt.Println(w.name(f) + "\t" + w.sigKey(f))
 		}
 		return
 	}
